@@ -639,6 +639,8 @@ def gen_loop(seed: int, tier: str = "quick") -> Dict[str, Any]:
            "connect_seed": rng.choice([None, rng.randrange(1 << 30)]),
            "order_seed": rng.choice([None, rng.randrange(1 << 30)]),
            "iteration_cost": rng.choice([0.0, 1e-5])}
+    if rng.random() < 0.15:
+        cfg["mli_late"] = True       # world.max_loop_iterations = M after the simulators were started
     sc = {"groups": groups, "sims": sims, "conns": conns, "until": rng.choice([1, 2, 3, 4]),
           "config": cfg, "loop": {"M": M, "L": L, "members": nmem, "tier": 2 if deep else 1,
                                   "cross_subgroups": cross}}
